@@ -99,6 +99,7 @@ def parseMethodDecl (j : Json) : Except String MethodDecl := do
 
 def parseScopeObj (j : Json) : Except String ScopeObj := do
   pure { name := ← getStr j "name", pos := ← getStr j "pos", isInterface := ← getBool j "isInterface",
+         isType := (j.getObjValAs? Bool "isTypeName").toOption.getD true,
          inSetupFile := ← getBool j "inSetupFile", docChain := ← natList j "docChain",
          methods := ← (← getArr j "methods").toList.mapM parseMethodDecl,
          lbrace := ← getNat j "lbrace", rbrace := ← getNat j "rbrace" }
